@@ -35,12 +35,14 @@ _spec.loader.exec_module(D)
 from guppylang.std.builtins import array, frozenarray, nat  # noqa: E402,F401
 from guppylang.std.option import Option  # noqa: E402,F401
 from guppylang.std.quantum import qubit  # noqa: E402,F401
-Plain, Gen1, Gen2, Sized = D.Plain, D.Gen1, D.Gen2, D.Sized   # names visible to Globals(frame) below
+Plain, Gen1, Gen2, Sized, Flagged = D.Plain, D.Gen1, D.Gen2, D.Sized, D.Flagged   # names visible to Globals(frame) below
 
 DEPTH = int(os.environ.get("VERIF_C31_DEPTH", "2"))
 _SH, _NSH = (int(x) for x in os.environ.get("VERIF_C31_SHARD", "0/1").split("/"))
 INT, NAT, FLOAT = (NumericType(k) for k in (NumericType.Kind.Int, NumericType.Kind.Nat, NumericType.Kind.Float))
 NATTY = NAT
+from guppylang_internals.tys.builtin import bool_type as _bool_type
+BOOLTY = _bool_type()
 
 
 def _struct(defn, args):
@@ -75,6 +77,7 @@ def build_all(depth):
                 nxt.append(frozenarray_type(t, 3))
             nxt.append(_struct(Gen1, [TypeArg(t)]))
             nxt.append(_struct(Sized, [TypeArg(t), _nat(4)]))
+            nxt.append(_struct(Flagged, [TypeArg(t), ConstArg(ConstValue(BOOLTY, len(nxt) % 2 == 0))]))     # a bool constant argument (True / False alternate)
         for a in small:
             for b in small[:6]:
                 nxt.append(TupleType([a, b]))
@@ -119,6 +122,14 @@ def roundtrip(ty):
     node = ast.parse(s, mode="eval").body
     annotate_location(node, s, "<ty>", 1)
     return s, type_from_ast(node, TypeParsingCtx(GLOBALS))
+
+
+with NoTracing():
+    from guppylang_internals.tys.const import ExistentialConstVar
+    _EXT, _EXC = [], []
+    for _k in range(20):        # made alternately, so that separate counters (if there were any) would run in step
+        _EXT.append(ExistentialTypeVar.fresh("T", True, True))
+        _EXC.append(ExistentialConstVar.fresh("T", NATTY))
 
 
 def h_roundtrip(case: int) -> bool:
@@ -184,4 +195,24 @@ def h_distinct_names(case: int) -> bool:
                 if (printed[i] == printed[j]) != same:
                     LAST_DETAIL = f"{s!r}: occurrences {i} and {j} are {'the same' if same else 'different'} variables but print as {printed[i]!r} / {printed[j]!r}"
                     return False
+        return True
+
+
+def h_existential_mix(i: int, j: int) -> bool:
+    """
+    pre: 0 <= i < 20 and 0 <= j < 20
+    post: _
+    """
+    # an unsolved type variable and an unsolved constant variable are different variables whatever their internal numbering:
+    # `array[?T_i, ?n_j]` must show two different names (20 x 20 pairs of freshly made variables)
+    global LAST_DETAIL
+    ci, cj = realize(i), realize(j)
+    with NoTracing():
+        tv, cv = _EXT[ci], _EXC[cj]
+        s = str(array_type(tv, cv))
+        inner = s[s.index("[") + 1:s.rindex("]")]
+        a, b = [x.strip() for x in inner.split(",")]
+        if a == b:
+            LAST_DETAIL = f"type variable #{ci} and constant variable #{cj} are different variables, but array[?T, ?n] prints as {s!r}"
+            return False
         return True
